@@ -28,6 +28,21 @@ DEFAULT_PROFILE = {
     "map_bias": 0.5,          # map family vs. apply (TaskPool)
     "named": 0.4,             # how often a request carries an explicit group name
     "raise_bias": 1.0,        # multiplier on the frequency of raising user code
+    "nums": [0, 1, 1, 2, 3, 5, 9],        # num of apply()
+    "start_nums": [0, 1, 1, 2, 3, 5],     # num of start()
+    "map_lens": [0, 1, 2, 3, 4, 6, 8],    # length of a map's iterable
+    "ncs": [1, 1, 2, 3, 7],               # num_concurrent
+}
+
+# long runs with many requests, many tasks per request and larger pools: ids, group indices and
+# per-group task counts beyond the small numbers of the default profile (thresholds, "the tenth
+# request", ids with two digits, re-use of names and slots after many flushes)
+LONG_PROFILE = {
+    "sizes": ["1", "3", "8", "12", "17", "inf"], "max_requests": 80, "user_op": 0.08, "map_bias": 0.3, "named": 0.15,
+    "nums": [1, 2, 4, 9, 10, 11, 16, 17, 20, 33], "start_nums": [1, 3, 8, 9, 10, 16, 17, 21],
+    "map_lens": [2, 5, 9, 10, 11, 16, 17, 25], "ncs": [1, 2, 4, 8, 9, 10, 16],
+    "flush": 2, "unlock": 5, "lock": 0.5, "finish": 30, "relcb": 20, "spawn": 4, "cancel": 2,
+    "cancelgroup": 1, "cancelall": 0.3, "gac": 0.1, "malformed": 0.01,
 }
 
 
@@ -110,18 +125,18 @@ class RandomSource:
         rb = self.p["raise_bias"]
         nonco = "1" if r.random() < 0.03 else "0"
         if run.cfg["kind"] == "simple":
-            return f"start num={r.choice([0, 1, 1, 2, 3, 5])}"
+            return f"start num={r.choice(self.p['start_nums'])}"
         if r.random() >= p_map:
-            num = r.choice([0, 1, 1, 2, 3, 5, 9])
+            num = r.choice(self.p["nums"])
             bad = gen_bad(r, num, 0.2 * rb) if self.p["raises"] else "0"
             return (f"apply num={num} bad={bad} nonco={nonco} "
                     f"w={self._w()} ecb={self._cb()} ccb={self._cb()} g={self._gname_opt(run)}")
-        n = r.choice([0, 1, 2, 3, 4, 6, 8])
+        n = r.choice(self.p["map_lens"])
         els = []
         for _ in range(n):
             b = "1" if self.p["raises"] and r.random() < 0.12 * rb else "0"
             els.append(b + self._w())
-        nc = r.choice([1, 1, 2, 3, 7]) if r.random() > 0.04 else 0
+        nc = r.choice(self.p["ncs"]) if r.random() > 0.04 else 0
         return (f"map stars={r.randint(0, 2)} els={','.join(els) or '-'} nc={nc} nonco={nonco} "
                 f"ecb={self._cb()} ccb={self._cb()} g={self._gname_opt(run)}")
 
